@@ -32,7 +32,7 @@ func run(repo, dir string, seed uint64, tier, thriftgo, plug string) int {
 		return 1
 	}
 	h := &harness{repo: repo, sc: sc, out: vl.NewOut(dir), r: vl.NewRng(seed), work: work, tier: tier, thriftgo: thriftgo, plug: plug}
-	nReq, nSyn, nTree, nStr, nProc := 160, 60, 120, 300, 22
+	nReq, nSyn, nTree, nStr, nProc := 160, 60, 120, 300, 24
 	if tier == "thorough" {
 		nReq, nSyn, nTree, nStr, nProc = 1500, 600, 1000, 3000, 120
 	}
